@@ -336,6 +336,13 @@ struct VecDriver {
             if (v.max_size() != N) {
                 bad("max_size", static_cast<long long>(v.max_size()), static_cast<long long>(N));
             }
+            if constexpr (N != 0) {
+                // like std::vector, the element storage is suitably aligned for T wherever the vector itself is placed
+                // (the arena places objects at minimally aligned addresses in half of the runs)
+                if (reinterpret_cast<uintptr_t>(v.data()) % alignof(T) != 0) {
+                    bad("data-alignment", static_cast<long long>(reinterpret_cast<uintptr_t>(v.data()) % alignof(T)), 0);
+                }
+            }
             if (moved[s]) {
                 return; // a moved-from object only has to be valid; its value is unspecified
             }
